@@ -61,6 +61,7 @@ FORMS = [
     ('cse-member', 'F1'), ('cse-member2', 'G2'), ('cse-range', 'SUM(F1:G2)'), ('countif', 'COUNTIF(A1:D1,">1")'),
     ('sumproduct', 'SUMPRODUCT(A1:A3,B1:B3)'), ('iferror', 'IFERROR(A1/C2,D2)'), ('choose', 'CHOOSE(2,A1,B2,C3)'),
     ('and', 'AND(A1>0,B2>0)'), ('concat', 'A1&B1'), ('lookup', 'LOOKUP(3,A1:A4,B1:B4)'), ('sum-cells', 'SUM(A1,B2,C3)'),
+    ('col-plus-beyond', 'SUM(A:A)+A9'), ('row-plus-beyond', 'SUM(2:2)+K2'), ('col-other-plus-beyond', "SUM('Sheet 2'!B:B)+'Sheet 2'!B9"),
     ('abs-range-sheet', "SUM(S!$A$1:$B$2)"), ('max', 'MAX(A1:D4)'), ('lower-case', 'sum(a1:a2)'),
 ]
 
@@ -172,9 +173,20 @@ def run_formula(name, text, env, acc, do_consequence):
     f6 = by_addr.get('S!F6')
     anc = {n.address.address for n in nx.ancestors(g, f6)} if f6 is not None else set()
     grid = [f'S!{c}{r}' for r in range(1, 5) for c in 'ABCD'] + [f'{SH2}!{c}{r}' for r in range(1, 5) for c in 'ABCD'] + \
-        [f'{SH3}!{c}{r}' for r in range(1, 4) for c in 'ABC']
+        [f'{SH3}!{c}{r}' for r in range(1, 4) for c in 'ABC'] + ['S!A9', 'S!K2', f'{SH2}!B9']      # (the last three lie beyond the used area)
+    def under_unbounded(x):
+        # a cell beyond the used area belongs to a whole column / row ancestor as soon as it holds something
+        from pycel.excelutil import AddressRange
+        for a in anc:
+            try:
+                r = AddressRange(a)
+                if r.is_unbounded_range and x in r:
+                    return True
+            except Exception:
+                pass
+        return False
     for x in grid:
-        if x in anc:
+        if x in anc or (x in grid[-3:] and under_unbounded(x)):
             continue
         for v in (987.5, 'zz'):
             acc.add('evaluations')
